@@ -50,7 +50,7 @@ def main():
             "guard": "HY_VERIF",
             "enable": "no hooks are compiled into /repo; all stubs are harness-side monkeypatches listed per evidence file (HY_VERIF is reserved and unused)",
             "baseline_off_cmd": "cd /repo && /venv/bin/python -m pytest -ra -q -p no:cacheprovider --timeout=900 --continue-on-collection-errors",
-            "source_commits": json.load(open(os.path.join(HERE, "known_findings.json"))).get("fix_commits", []) if os.path.exists(os.path.join(HERE, "known_findings.json")) else [],
+            "source_commits": [],
             "add_only": True,
         },
         "engines": [
@@ -58,7 +58,8 @@ def main():
         ],
         "checks": checks,
         "not_applicable": na,
-        "notes": "Solver-based checking (CrossHair 0.0.110 + z3 5.1.0) of the real hy code; every verdict is bounded, bounds are in each evidence file. Exit 3 = harness error (never a VIOLATION line).",
+        "notes": "Unguarded 'fix:' commits in /repo (genuine defects found by these checks, see known_findings.json): " + ", ".join(
+            json.load(open(os.path.join(HERE, "known_findings.json"))).get("fix_commits", [])) + ". Solver-based checking (CrossHair 0.0.110 + z3 5.1.0) of the real hy code; every verdict is bounded, bounds are in each evidence file. Exit 3 = harness error (never a VIOLATION line).",
     }
     with open(os.path.join(HERE, "MANIFEST.json"), "w") as f:
         json.dump(man, f, indent=1)
